@@ -51,6 +51,7 @@ class Produced:
 
 def programs(tier: str):
     yield from _five(tier)
+    yield from _fine(tier)
     yield from _three_keys(tier)
     yield from _wrapped(tier)
     b = BOUNDS[tier]
@@ -82,6 +83,18 @@ def programs(tier: str):
                                         "batch": batch,
                                         "variant": variant,
                                     }
+
+
+def _fine(tier: str):
+    # a caller cancelled between two loop iterations (e.g. right after it created / joined the
+    # shared invocation and before anybody took a step)
+    for keys in ("aa", "ab", "aaa"):
+        for limit in (1, 2):
+            if limit == 2 and "b" not in keys:
+                continue
+            for outcome in ("value", "exc"):
+                for variant in ("function", "method"):
+                    yield {"keys": keys, "limit": limit, "expiration": None, "outcome": outcome, "cancels": 1, "batch": 1, "variant": variant, "fine": True}
 
 
 def _wrapped(tier: str):
@@ -116,7 +129,7 @@ def explore_config(tier: str, program) -> dict:
 def execute(program, ch: Chooser) -> Result:  # noqa: C901, PLR0912, PLR0915
     keys, limit, expiration = program["keys"], program["limit"], program["expiration"]
     n = len(keys)
-    w = World(ch, cancel_budget=program["cancels"], batch=program["batch"])
+    w = World(ch, cancel_budget=program["cancels"], batch=program["batch"], fine=program.get("fine", False))
     viols: list[dict] = []
     try:
         started: list[dict] = []  # invocations in start order
